@@ -287,6 +287,11 @@ def _syn_nonneg(node, strict=False) -> bool:
     return False
 
 
+# the classes that are still listed findings; int-abs, int-mod and mod-sign were repaired in gotranx (fix: commits 5320084, 4ec0b8d):
+# a mismatch on such a model is an ordinary violation again
+C_CLASSES_STILL_KNOWN = {"int-quotient"}
+
+
 def c_unsafe(node) -> set:
     """classes of KNOWN C-backend defects the expression can touch: 'int-quotient' (a quotient whose two operands are
     C ints: integer literals, comparisons, ternaries of ints), 'int-abs' (abs of something containing floor: printed as the
@@ -918,7 +923,7 @@ class RefModel:
             out |= c_unsafe(a.ast)
         for d in list(self.states.values()) + list(self.params.values()):
             out |= c_unsafe(parse_expr(d.expr_text))
-        return out
+        return out & C_CLASSES_STILL_KNOWN
 
     def deriv_refs(self) -> dict:
         """{intermediate name: [d<state>_dt names its expression mentions]}"""
